@@ -20,27 +20,40 @@ import re
 import common
 from props import syntaxlib as L
 from props import syntaxref
+from props import stmtgen
 
 MANIFEST = dict(
     category="proof",
     text="Machine-checked proof (Coq) over a Gallina model of numbat's recursive-descent parser (parser.rs parse / "
-         "statement for expressions, `let name = e` and procedure calls; expression … primary, parse_binop, arguments, "
-         "list and struct literals; one definition per Rust function, explicit error / out-of-fuel results). "
+         "statement with every statement form: expressions, let with annotation and decorators, fn with type parameters, "
+         "typed parameters, return annotation, where/and clauses, dimension, unit, use, struct, procedure calls, type "
+         "annotations and dimension expressions; expression … primary, parse_binop, arguments, list and struct literals; "
+         "one definition per Rust function, explicit error / out-of-fuel results). "
          "C10_roundtrip / C10_roundtrip_stmt: for EVERY derivation tree of the documented grammar whose operands sit at "
          "the levels the documented precedence table requires (unbounded depth; |>, if/then/else, conversions, ||, &&, !, "
          "comparisons, + -, * /, per, unary minus/plus, implicit multiplication, ^ and ^-, factorials, unicode exponents, "
          "calls, field access, list and struct literals, parentheses, all literal kinds) the parser applied to the printed "
-         "tokens returns exactly the documented tree. C10_precedence: every abstract operator tree rendered with the minimal "
+         "tokens returns exactly the documented tree. C10_roundtrip_type / C10_roundtrip_dexpr: the same for every "
+         "well-formed type annotation / dimension expression (type arguments, rational exponents, Fn[…], List<…>). "
+         "C10_roundtrip_def: every well-formed definition (let/fn/dimension/unit/use/struct with all documented decorators) "
+         "parses to the statement it denotes. C10_roundtrip_program: any number of statements and definitions separated by "
+         "`;` or line breaks with blank lines anywhere between them parse to the list of their meanings. "
+         "C10_precedence: every abstract operator tree rendered with the minimal "
          "parentheses of the table is read back as itself. C10_parens: redundant parentheses / alternative spellings never "
-         "change the result. C10_sound_core + C10_characterised: on token lists without newline tokens, trailing commas and "
-         "`;`, whatever the parser accepts IS the print of a well-formed tree and denotes it (acceptance characterised "
-         "exactly: nothing outside the grammar is accepted or reinterpreted). C10_fuel: the parser never runs out of fuel on "
-         "ANY token list. C10_optable / C10_lex_tables: the precedence chain, operator token sets, keyword map and subscript "
-         "range re-extracted from the Rust source on every run equal the model's; documented spellings and number forms lex as "
-         "documented (finite tables). NOT proved: the lexer beyond the finite tables, soundness for inputs with newline "
-         "tokens / trailing commas / several statements (C10_full), string interpolation and the other statement forms "
-         "(fn, unit, dimension, struct, decorators, type annotations: explicit Unsupported in the model) — these rest on the "
-         "model-vs-implementation correspondence (token kinds, lexemes, trees, first error kind) and the reference recogniser.",
+         "change the result. C10_sound_core + C10_characterised (one statement) and C10_sound_seq (`;`-separated statements): "
+         "on token lists without newline tokens and trailing commas whose statements are expressions, plain lets or "
+         "procedure calls, whatever the parser accepts IS the print of well-formed trees and denotes them (acceptance "
+         "characterised exactly: nothing outside the grammar is accepted or reinterpreted). C10_fuel: the parser never runs "
+         "out of fuel on ANY token list (all statement forms). C10_lex_number(+_sound) / C10_lex_ident(+_sound): for literals "
+         "and identifiers of ANY length and ANY Unicode identifier classes (parameters), the documented decimal number "
+         "notation resp. start/continue words are exactly what the tokenizer model turns into one Number resp. "
+         "Identifier/keyword token (both directions). C10_optable / C10_lex_tables: the precedence chain, operator token "
+         "sets, keyword map and subscript range re-extracted from the Rust source on every run equal the model's; documented "
+         "spellings and number forms lex as documented (finite tables). NOT proved: soundness (the converse direction) for "
+         "definitions and for inputs with newline tokens / trailing commas (C10_full); string interpolation (explicit "
+         "Unsupported in lexer and parser model); a `>=` token that closes a type-parameter list (Unsupported) — these rest "
+         "on the model-vs-implementation correspondence (token kinds, lexemes, trees, first error kind) and the reference "
+         "recogniser.",
     design_ref="DESIGN.md §6 C10; design/syntax.md",
     note="Trusted: Coq kernel + vm_compute; the hand port of parser.rs/tokenizer.rs in coq/theories/Syntax/{Parser,Lexer}.v "
          "(validated on every run by the correspondence check and by the regenerated operator table Gen/OpTable.v, "
@@ -52,9 +65,12 @@ MANIFEST = dict(
               "correspondence by vm_compute + independent reference recogniser",
 )
 
-THEOREMS = ["C10_roundtrip", "C10_roundtrip_stmt", "C10_precedence", "C10_parens", "C10_fuel", "C10_sound_core",
-            "C10_characterised",
-            "C10_optable", "C10_lex_tables"]
+THEOREMS = ["C10_roundtrip", "C10_roundtrip_stmt", "C10_roundtrip_type", "C10_roundtrip_dexpr",
+            "C10_roundtrip_def", "C10_roundtrip_program",
+            "C10_precedence", "C10_parens", "C10_fuel", "C10_sound_core",
+            "C10_characterised", "C10_sound_seq",
+            "C10_optable", "C10_lex_tables", "C10_lex_number", "C10_lex_number_sound",
+            "C10_lex_ident", "C10_lex_ident_sound"]
 ALLOWED_AXIOMS = []
 
 KNOWN = [f for f in common.load_known() if f.get("property") == "C10"]
@@ -178,7 +194,7 @@ def make_cases(chk, quick):
             t = L.gen_tree(rng, depth)
             name = rng.choice(L.IDENTS)
             tk = [("Let", None), ("Identifier", name), ("Equal", None)] + L.toks(t)
-            expect = "OK (let %s %s)" % (L.esc(name), L.sexpr(t))
+            expect = "OK (let %s _ (decos) %s)" % (L.esc(name), L.sexpr(t))
         else:
             kind, word = rng.choice([("ProcedurePrint", "print"), ("ProcedureAssert", "assert"),
                                      ("ProcedureAssertEq", "assert_eq"), ("ProcedureType", "type")])
@@ -194,6 +210,14 @@ def make_cases(chk, quick):
             continue
         cases.append(dict(src=L.render(tk, rng, tight=rng.choice([0.0, 0.3])), kind="statement", expect=expect, tokens=tk))
         if rng.random() < 0.4:
+            cases.append(dict(src=L.render(L.gen_mutation(rng, tk), rng, tight=0.0), kind="mutated", expect=None))
+    # definition statements: fn / unit / dimension / struct / use / let with annotations and decorators
+    for n in range(500 if quick else 5000):
+        tk, expect = stmtgen.gen_statement(rng)
+        if len(tk) > 150:
+            continue
+        cases.append(dict(src=L.render(tk, rng, tight=rng.choice([0.0, 0.3])), kind="definition", expect=expect, tokens=tk))
+        if rng.random() < 0.5:
             cases.append(dict(src=L.render(L.gen_mutation(rng, tk), rng, tight=0.0), kind="mutated", expect=None))
     for n in range(700 if quick else 6000):
         cases.append(dict(src=L.gen_soup(rng), kind="soup", expect=None))
